@@ -882,9 +882,9 @@ def tok_fuzz(r):
                 ls, _ = image_lines(r, rbytes(r, r.randrange(1, 40)), t, lambda: 16)
                 toks.insert(k, ("load", ls))
             elif mut == "loadstr":
-                # a ("load", <dict>) token is what "#>load ..." parses to; ("load", <str>) can no longer
-                # come from the parser ("##load:" is refused there) and is not generated
-                toks.insert(k, ("load", r.choice([{}, {"0": "1"}, {"A": "b", "C": "d"}])))
+                # ("load", <str or dict>) tokens cannot come from the parser any more ("#>load" and
+                # "##load:" are refused there): not generated; the text damage set has those lines
+                pass
             elif mut == "weirdlines":
                 toks.insert(k, ("load", weird_lines(r)[1] or [line_of(0, 0x35, b"\x03\x00\x00A")]))
             elif mut == "select_bad":
@@ -946,7 +946,7 @@ def text_fuzz(r, text):
     elif mut == "cmdjunk":
         lines.insert(k, r.choice(["#>", "#> ", "#>X", "#>X Y", "#>X A=B=C", "#>X A=1,,B=2", "#>X A=1, ,B=2", "#>X  A = 1 , B=2 ",
                                   "#>REBOOT ", "#>\tREBOOT\t", "#>X A=1,A=2,B=3", "#>X =", "#>SELECT_IF PROTOCOL=*",
-                                  "#>X A=1\x1c", "#>X\xa0A=1", "#>load", "#>CRC 0x12345678"]))
+                                  "#>X A=1\x1c", "#>X\xa0A=1", "#>load", "#>load a=1", "#>load a", "#>Load", "#> load", "#>CRC 0x12345678"]))
     elif mut == "metajunk":
         lines.insert(k, r.choice(["##", "##:", "##A", "##A:B:C", "## A : B ", "##A:", "##Creator:\ttool\x1f ", "##REBOOT:",
                                   "##Bf3Update:1", "###x:y", "##CRC: 0x0000BEEF", "##CRC:0xBEEF", "##SELECT: text",
